@@ -147,7 +147,7 @@ impl Debugger {
     }
 
     pub(super) fn increment_instruction_count(&mut self) {
-        self.instruction_count += 1;
+        self.instruction_count = self.instruction_count.saturating_add(1);
         // The instruction at the breakpoint is about to execute, so re-arm it.
         // Otherwise a jump straight back to it (eg. `x br x`) would be missed
         self.current_breakpoint = None;
